@@ -1262,7 +1262,10 @@ std::vector<uint8_t> MDSDRV_Converter::convert_track(const std::vector<MDSDRV_Ev
 			}
 		}
 
-		last_type = type;
+		// A rest, tie or note of length 0 emits nothing and must not be taken for the
+		// last emitted event by the length disambiguation above.
+		if(type < MDSDRV_Event::REST || type >= MDSDRV_Event::SLR || it->arg)
+			last_type = type;
 	}
 	return track_data;
 }
